@@ -43,6 +43,10 @@ def rules(ctx):
     # end-depot alignment, goes through these incremental cycle updates on every request; shared with C15)
     from . import formulas as _fm
     _fm.transition_formulas(ctx, "R2")
+    from .C12 import distance_sub_keeps_infinity
+    distance_sub_keeps_infinity(ctx, "R5")      # a valid request that needs the overflow depot is answered, not dropped by a panic
+    from .C07 import formation_getters
+    formation_getters(ctx, "R2")                # the unserved passengers reported with the answer are those of its formations
     o, fd = ctx.require_fn("R1.route-table", "T7", MAIN, "GET /health -> healthy and POST /solve -> solve are registered")
     if fd is not None:
         routes = calls_to(fd, ROUTE)
